@@ -419,6 +419,12 @@ func c20http(ip *interp.Interp, tag string, clients, reqs int, seed int64) (done
 			if ins, errs := evalPlain(ip, p.src, nil); errs != "" || ins != p.want {
 				addBad(fmt.Sprintf("main: %s → %s%s, want %s", p.src, ins, errs, p.want))
 			}
+			// … and goes on with its own top-level statements, in the scope in which the handlers were written
+			// (what a script or REPL session does after starting a background server)
+			ms := fmt.Sprintf("top_%s_%d := %d\ntop_%s_%d + 1", tag, i, i, tag, i)
+			if ins, errs := evalPlain(ip, ms, env); errs != "" || ins != fmt.Sprint(i+1) {
+				addBad(fmt.Sprintf("main (server scope): %s → %s%s, want %d", ms, ins, errs, i+1))
+			}
 		}
 	}()
 	var cw sync.WaitGroup
